@@ -1,0 +1,209 @@
+//go:build verif
+
+// Contracts for the deductive verification of this package (tool: /verif).
+// This file is only compiled with the build tag "verif". It contains
+//   - the executable prelude of the contract language (old, forall, ...),
+//   - spec functions (pure Go) used inside contracts,
+//   - the contracts themselves, as //@ comment blocks keyed by function.
+// Nothing here is reachable from the production build.
+
+package gbn
+
+// ---- contract prelude ------------------------------------------------------
+
+func old[T any](x T) T              { return x }
+func implies(a, b bool) bool        { return !a || b }
+func iff(a, b bool) bool            { return a == b }
+func ite[T any](c bool, a, b T) T   { if c { return a }; return b }
+func is[T any](m any) bool          { _, ok := m.(T); return ok }
+func as[T any](m any) T             { v, _ := m.(T); return v }
+func isnil(x any) bool              { return x == nil }
+func sameslice(a, b []byte) bool {
+	return len(a) == len(b) && (len(a) == 0 || &a[0] == &b[0])
+}
+func fresh(x any) bool { return x != nil }
+
+// held / rheld: the calling goroutine holds the mutex (ghost; not executable)
+func held(m any) bool   { return true }
+func rheld(m any) bool  { return true }
+func unheld(m any) bool { return true }
+
+// elems / entries: frame designators for modifies clauses
+func elems[T any](s []T) int               { return len(s) }
+func entries[K comparable, V any](m map[K]V) int { return len(m) }
+func forall(lo, hi int, p func(i int) bool) bool {
+	for i := lo; i < hi; i++ {
+		if !p(i) {
+			return false
+		}
+	}
+	return true
+}
+
+// ---- spec functions --------------------------------------------------------
+
+// inwin: seq lies in the cyclic window [base, top).
+func inwin(base, top, seq uint8) bool {
+	if base == top {
+		return false
+	}
+	if base < top {
+		return base <= seq && seq < top
+	}
+	return seq < top || base <= seq
+}
+
+// wsize: number of packets in the cyclic window [base, top) modulo s.
+func wsize(s, base, top uint8) int {
+	if top >= base {
+		return int(top) - int(base)
+	}
+	return int(top) + int(s) - int(base)
+}
+
+// b2u: wire encoding of a boolean flag.
+func b2u(b bool) uint8 {
+	if b {
+		return TRUE
+	}
+	return FALSE
+}
+
+// wellformed: the byte strings Deserialize accepts.
+func wellformed(b []byte) bool {
+	if len(b) < 1 {
+		return false
+	}
+	if b[0] == DATA {
+		return len(b) >= 4
+	}
+	if b[0] == ACK || b[0] == NACK || b[0] == SYN {
+		return len(b) >= 2
+	}
+	return b[0] == FIN || b[0] == SYNACK
+}
+
+// qinv: representation invariant of the send queue.
+func qinv(q *queue) bool {
+	return q != nil && q.cfg != nil && q.cfg.log != nil && q.syncer != nil && syinv(q.syncer) &&
+		q.timeoutManager != nil && q.cfg.s >= 2 && q.syncer.s == q.cfg.s &&
+		q.sequenceBase < q.cfg.s && q.sequenceTop < q.cfg.s &&
+		len(q.content) == int(q.cfg.s)
+}
+
+// qsize: mathematical number of outstanding packets.
+func qsize(q *queue) int { return wsize(q.cfg.s, q.sequenceBase, q.sequenceTop) }
+
+// syinv: invariant of the resend syncer.
+func syinv(c *syncer) bool {
+	return c != nil && c.log != nil && c.timeoutManager != nil && c.s >= 2
+}
+
+// ---- contracts -------------------------------------------------------------
+
+//@ func (q *queue) size() (r uint8)
+//@   props C01 C07 C09
+//@   requires qinv(q)
+//@   ensures int(r) == qsize(q)
+
+//@ func (q *queue) addPacket(packet *PacketData)
+//@   props C01 C07 C09
+//@   requires qinv(q) && packet != nil
+//@   requires qsize(q) < int(q.cfg.s) - 1
+//@   modifies q.sequenceTop, packet.Seq, elems(q.content)
+//@   ensures qinv(q) && q.sequenceBase == old(q.sequenceBase)
+//@   ensures packet.Seq == old(q.sequenceTop) && q.content[old(q.sequenceTop)] == packet
+//@   ensures int(q.sequenceTop) == (int(old(q.sequenceTop)) + 1) % int(q.cfg.s)
+//@   ensures qsize(q) == old(qsize(q)) + 1
+//@   ensures !inwin(old(q.sequenceBase), old(q.sequenceTop), old(q.sequenceTop))
+//@   ensures forall(0, int(q.cfg.s), func(k int) bool { return k == int(old(q.sequenceTop)) || q.content[k] == old(q.content[k]) })
+
+//@ func (q *queue) processACK(seq uint8) (moved bool)
+//@   props C01 C07 C09
+//@   requires qinv(q)
+//@   modifies q.sequenceBase
+//@   ensures qinv(q) && q.sequenceTop == old(q.sequenceTop)
+//@   ensures qsize(q) <= old(qsize(q))
+//@   ensures q.sequenceBase == old(q.sequenceBase) ||
+//@           (inwin(old(q.sequenceBase), q.sequenceTop, seq) && int(q.sequenceBase) == (int(seq)+1) % int(q.cfg.s))
+//@   ensures moved == (q.sequenceBase != old(q.sequenceBase))
+
+//@ func (q *queue) processNACK(seq uint8) (resend bool, bumped bool)
+//@   props C01 C07 C09
+//@   requires qinv(q)
+//@   modifies q.sequenceBase, q.syncer.state
+//@   ensures qinv(q) && q.sequenceTop == old(q.sequenceTop)
+//@   ensures qsize(q) <= old(qsize(q))
+//@   ensures q.sequenceBase == old(q.sequenceBase) ||
+//@           ((inwin(old(q.sequenceBase), q.sequenceTop, seq) || seq == q.sequenceTop) && q.sequenceBase == seq)
+//@   ensures implies(resend, inwin(old(q.sequenceBase), q.sequenceTop, seq))
+//@   ensures implies(bumped, q.sequenceBase != old(q.sequenceBase) || seq == q.sequenceTop)
+
+//@ func (c *syncer) processACK(seq uint8)
+//@   props C01 C07
+//@   requires syinv(c)
+
+//@ func (c *syncer) processNACK(seq uint8)
+//@   props C01 C07
+//@   requires syinv(c)
+//@   modifies c.state
+
+//@ func (c *syncer) resetUnsafe()
+//@   props C07
+//@   requires syinv(c) && held(&c.mu)
+//@   modifies c.state
+//@   ensures c.state == syncStateIdle
+
+//@ func (c *syncer) initResendUpTo(top uint8)
+//@   props C01 C07
+//@   requires syinv(c)
+//@   modifies c.state, c.expectedACK, c.expectedNACK
+//@   ensures c.state == syncStateResending && c.expectedNACK == top
+
+//@ func (m *PacketData) Serialize() (out []byte, err error)
+//@   props C19 C01 C07
+//@   requires m != nil
+//@   ensures err == nil
+//@   ensures len(out) == 4 + len(m.Payload)
+//@   ensures out[0] == DATA && out[1] == m.Seq && out[2] == b2u(m.FinalChunk) && out[3] == b2u(m.IsPing)
+//@   ensures forall(0, len(m.Payload), func(i int) bool { return out[4+i] == m.Payload[i] })
+
+//@ func (m *PacketACK) Serialize() (out []byte, err error)
+//@   props C19 C01 C07
+//@   requires m != nil
+//@   ensures err == nil && len(out) == 2 && out[0] == ACK && out[1] == m.Seq
+
+//@ func (m *PacketNACK) Serialize() (out []byte, err error)
+//@   props C19 C01 C07
+//@   requires m != nil
+//@   ensures err == nil && len(out) == 2 && out[0] == NACK && out[1] == m.Seq
+
+//@ func (m *PacketSYN) Serialize() (out []byte, err error)
+//@   props C19 C07 C10
+//@   requires m != nil
+//@   ensures err == nil && len(out) == 2 && out[0] == SYN && out[1] == m.N
+
+//@ func (m *PacketFIN) Serialize() (out []byte, err error)
+//@   props C19 C07
+//@   ensures err == nil && len(out) == 1 && out[0] == FIN
+
+//@ func (m *PacketSYNACK) Serialize() (out []byte, err error)
+//@   props C19 C07
+//@   ensures err == nil && len(out) == 1 && out[0] == SYNACK
+
+//@ func Deserialize(b []byte) (msg Message, err error)
+//@   props C19 C07 C01
+//@   ensures (err == nil) == wellformed(b)
+//@   ensures implies(err != nil, isnil(msg))
+//@   ensures implies(err == nil && b[0] == DATA, is[*PacketData](msg) && fresh(as[*PacketData](msg)) &&
+//@           as[*PacketData](msg).Seq == b[1] && as[*PacketData](msg).FinalChunk == (b[2] == TRUE) &&
+//@           as[*PacketData](msg).IsPing == (b[3] == TRUE) && sameslice(as[*PacketData](msg).Payload, b[4:]))
+//@   ensures implies(err == nil && b[0] == ACK, is[*PacketACK](msg) && fresh(as[*PacketACK](msg)) && as[*PacketACK](msg).Seq == b[1])
+//@   ensures implies(err == nil && b[0] == NACK, is[*PacketNACK](msg) && fresh(as[*PacketNACK](msg)) && as[*PacketNACK](msg).Seq == b[1])
+//@   ensures implies(err == nil && b[0] == SYN, is[*PacketSYN](msg) && fresh(as[*PacketSYN](msg)) && as[*PacketSYN](msg).N == b[1])
+//@   ensures implies(err == nil && b[0] == FIN, is[*PacketFIN](msg))
+//@   ensures implies(err == nil && b[0] == SYNACK, is[*PacketSYNACK](msg))
+
+//@ func containsSequence(base, top, seq uint8) (r bool)
+//@   props C01 C07 C09
+//@   ensures r == inwin(base, top, seq)
